@@ -305,7 +305,12 @@ func (s *ckSim) deliver(st *ckStream, k int, corrupt string, badDid bool, badVer
 	if len(c.Data) == 0 {
 		corrupt = "" // the empty last chunk of a streamed snapshot: nothing to flip
 	}
-	if corrupt != "" && len(c.Data) > 0 {
+	if corrupt == "main" && len(c.Data) > 1 && s.rng.Intn(4) == 0 {
+		// cut short: the chunk arrives with only a prefix of its data (same class as a flipped bit: the
+		// stream must never finalize with it)
+		off := 1 + s.rng.Intn(len(c.Data)-1)
+		c.Data = c.Data[:off]
+	} else if corrupt != "" && len(c.Data) > 0 {
 		off := s.rng.Intn(len(c.Data))
 		c.Data[off] ^= byte(1 << uint(s.rng.Intn(8)))
 		if os.Getenv("VERIF_DEBUG") != "" {
